@@ -13,7 +13,7 @@ RULE = ("E1, complete products: ('len', n, content class, key, variant) = every 
         "for payload lengths 2, 14, 26 one payload per value 0..255 of the CRC low byte and of the high byte plus CRC 0000 "
         "(found with the reference CRC), length 1: all 256 payloads; ('ck', len, pos) = customer key at every position 0..len-10 "
         "for len <= 48 and boundary positions above; ('neg', ...) = reference-built frames with every wrong marker value, every "
-        "single-bit CRC error, payload bit errors, wrong customer key, and frames made under another key. Oracle: ciphertext byte-identical "
+        "single-bit CRC error, payload bit errors, wrong customer key, and frames made under another key. ('reuse', variant, ops) = every sequence of 2..3 operations (encrypt 3 payloads, decrypt 2 frames, decrypt a damaged frame) on ONE live encryptor object. Oracle: ciphertext byte-identical "
         "to the reference container (CBC, zero IV, 'B', len+2, 1..16 zeros, payload, CRC-16), decrypt(encrypt(p)) == p, negatives raise. "
         "Distinct = distinct case tuples; non-trivial = all (each runs real encrypt and/or decrypt).")
 ASSUMPTIONS = [
@@ -97,6 +97,12 @@ def cases(ctx):
         for pos in (0, ln - 10):
             for bit in range(0, 80, 7):
                 yield ("neg", "custkey", ln, pos * 1000 + bit)
+    # one live encryptor object used for several operations: results must not depend on earlier calls
+    from itertools import product as _product
+    for variant in ("cust", "custkey", "code"):
+        for n in (2, 3):
+            for seq in _product(range(6), repeat=n):
+                yield ("reuse", variant) + seq
 
 
 def positive(o, enc, key, p_in, p_wrapped, p_out, what):
@@ -178,6 +184,50 @@ def run_case(ctx, case):
         out = p[:pos] + bytes(10) + p[pos + 10:]
         enc = SoftwareCustKeyEncryptor(key, ck, pos)
         return positive(o, enc, key, p, wrapped, out, "customer key at %d of %d" % (pos, ln))
+    if kind == "reuse":
+        variant = case[1]
+        key = key_of(ctx, 2)
+        ck = ctx.sym("c08-ck", 10)
+        code = code_of(ctx, 2)
+        if variant == "cust":
+            mk = lambda: SoftwareCustKeyEncryptor(key)
+            akey, slot = key, None
+        elif variant == "custkey":
+            mk = lambda: SoftwareCustKeyEncryptor(key, ck, 3)
+            akey, slot = key, 3
+        else:
+            mk = lambda: ConfigSecurityCodeEncryptor(code)
+            akey, slot = AB.code_key(code), None
+        p = [shapes.payload(ctx, "c08-r1", 26, 0), shapes.payload(ctx, "c08-r2", 17, 2), shapes.payload(ctx, "c08-r3", 45, 0)]
+
+        def wrapped(x):
+            return x if slot is None else x[:slot] + ck + x[slot + 10:]
+
+        def blanked(x):
+            return x if slot is None else x[:slot] + bytes(10) + x[slot + 10:]
+        live = mk()
+        for step, op in enumerate(case[2:]):
+            if op < 3:
+                got = live.encrypt(p[op])
+                exp = AB.container_wrap(akey, wrapped(p[op]))
+            elif op < 5:
+                ct = AB.container_wrap(akey, wrapped(p[op - 3]))
+                got = live.decrypt(ct)
+                exp = blanked(p[op - 3])
+            else:
+                bad = bytearray(AB.container_wrap(akey, wrapped(p[0])))
+                bad[-1] ^= 1
+                try:
+                    live.decrypt(bytes(bad))
+                    got = "accepted"
+                except Exception:
+                    got = "rejected"
+                exp = "rejected"
+            if got != exp:
+                o.cls = "history-dependent"
+                return o.viol("reuse|%s" % ("encrypt" if op < 3 else "decrypt"),
+                              "%s encryptor object: operation #%d of %r gives a result that differs from a first call on a fresh object" % (variant, step, case[2:]))
+        return o
     if kind == "neg":
         _, what, ln, arg = case
         key = key_of(ctx, 0)
